@@ -588,13 +588,13 @@ def shards(tier, seed):
     out = [dict(kind='open')]
     for k in range(14):
         out.append(dict(kind='hyp', seed=seed * 1000 + k,
-                        n=100 if tier == 'quick' else 1500))
+                        n=100 if tier == 'quick' else 4000))
     for k in range(4):
         out.append(dict(kind='saves-enum', part=k, parts=4))
     out.append(dict(kind='saves', seed=seed * 1000 + 700,
-                    n=60 if tier == 'quick' else 1500))
+                    n=60 if tier == 'quick' else 4000))
     out.append(dict(kind='fresh', seed=seed * 1000 + 500,
-                    n=40 if tier == 'quick' else 400))
+                    n=40 if tier == 'quick' else 1200))
     return out
 
 
